@@ -191,16 +191,44 @@ def main():
     if not violations:
         import replay
         bl = []
+        corpus_specs = []
         for wsc in spec.get("bounded", []):
             if wsc.get("kind") == "lib":
                 bl.extend(getattr(registry, wsc["witnesses"]))
+            elif wsc.get("kind") == "corpus":
+                corpus_specs.append(wsc)
             else:
                 bl.append(wsc)
-        if any(x.get("kind") != "cli" for x in bl):
+        if corpus_specs or any(x.get("kind") != "cli" for x in bl):
             okb, errb = replay.build()      # the replay crate is rebuilt from /repo's working tree
             if not okb:
                 print(f"UNDECIDED property={prop}: the replay crate does not build against the current tree: {errb[-300:]}")
                 return 2
+        # the repository's own test inputs under other configurations and column widths than the snapshots pin (bounded, labelled)
+        for cs in corpus_specs:
+            cfgs = registry.CORPUS_CONFIGS_THOROUGH if tier == "thorough" else registry.CORPUS_CONFIGS_QUICK
+            widths = registry.CORPUS_WIDTHS_THOROUGH if tier == "thorough" else registry.CORPUS_WIDTHS_QUICK
+            try:
+                fails, stats = replay.run_corpus(cfgs, widths)
+            except Exception as e:
+                print(f"UNDECIDED property={prop}: corpus sweep did not run: {e}")
+                return 2
+            mine = [f for f in fails if f["kind"] in cs["kinds"]]
+            bounded_runs.append(dict(scenario=f"corpus sweep: {stats['files']} test inputs of the repository x {stats['configs']} configurations x column widths {widths} = {stats['runs']} runs; oracles {cs['kinds']}",
+                                     violated=bool(mine), detail=f"{len(mine)} failing runs"))
+            seen_c = set()
+            for f in mine:
+                wid = "corpus:" + f["file"] + ":" + f["kind"] + ":" + hashlib.sha256(f["detail"].encode()).hexdigest()[:8]
+                if wid in seen_c: continue
+                seen_c.add(wid)
+                kf = next((k for k in known if k["prop"] == prop and k["label"] == "bounded:" + wid), None)
+                if kf:
+                    print(f"KNOWN-FINDING: property={prop} bounded {wid} — {kf['text']}")
+                    known_bounded.append(kf)
+                    continue
+                wsc = dict(kind="corpusfile", file=f["file"], opts=f["opts"], column_width=f["column_width"], fkind=f["kind"])
+                violations.append(dict(unit="cli", fs="-", label="bounded:" + wid, text="bounded corpus sweep (stand-in for formatters outside every contract)",
+                                       diag=dict(message=f["detail"], fn="stylua_lib::format_code", rendered=json.dumps(f)[:3000]), res=None, scenario=wsc, scenario_result=f))
         for wsc in bl:
             try:
                 v, j = replay.run_witness(wsc)
